@@ -529,8 +529,8 @@ impl<Aux> Vm<'_, Aux> {
                         .push(val)
                         .map_err(|_| ExecutionErrorPayload::Stackoverflow)
                         .map_err(|err| {
-                            // free the object on Stackoverflow
-                            self.runtime_data.free_object(obj.0);
+                            // the object is garbage now, it is in the object list: the next
+                            // collection (or clear) releases it
                             payload_to_error(err, src_ptr, &self.runtime_data.call_stack)
                         })?;
                 }
@@ -551,8 +551,8 @@ impl<Aux> Vm<'_, Aux> {
                         .push(val)
                         .map_err(|_| ExecutionErrorPayload::Stackoverflow)
                         .map_err(|err| {
-                            // free the object on Stackoverflow
-                            self.runtime_data.free_object(obj.0);
+                            // the object is garbage now, it is in the object list: the next
+                            // collection (or clear) releases it
                             payload_to_error(err, src_ptr, &self.runtime_data.call_stack)
                         })?;
                 }
@@ -573,8 +573,8 @@ impl<Aux> Vm<'_, Aux> {
                         .push(val)
                         .map_err(|_| ExecutionErrorPayload::Stackoverflow)
                         .map_err(|err| {
-                            // free the object on Stackoverflow
-                            self.runtime_data.free_object(obj.0);
+                            // the object is garbage now, it is in the object list: the next
+                            // collection (or clear) releases it
                             payload_to_error(err, src_ptr, &self.runtime_data.call_stack)
                         })?;
                 }
